@@ -471,6 +471,7 @@ pub fn check_corrupt(c: &Corrupt, obs: &mut Obs) -> Verdict {
     // render canonically with comments/blank lines between, LF or CRLF
     let mut ch = Chooser { c: &c.base.choices, i: 0 };
     let crlf = ch.chance(40);
+    // (decided after the other choices so that earlier regression cases keep their meaning)
     let mut lines: Vec<String> = vec![];
     let mut bad_line = 0;
     for (i, t) in c.base.txs.iter().enumerate() {
@@ -484,15 +485,19 @@ pub fn check_corrupt(c: &Corrupt, obs: &mut Obs) -> Verdict {
             lines.push(crate::led::tx_to_dsl(t));
         }
     }
-    let nl = if crlf { "\r\n" } else { "\n" };
+    let final_nl = ch.chance(60);
+    // one case in five uses CR-only line ends, which the statement lists among the endings
+    let cr_only = !crlf && ch.chance(25);
+    let nl = if crlf { "\r\n" } else if cr_only { "\r" } else { "\n" };
     let mut text = lines.join(nl);
-    if ch.chance(60) {
+    if final_nl {
         text.push_str(nl);
     }
     obs.hash = crate::led::hash_str(&text);
     obs.nontrivial = bad_line > 1;
     obs.class(&format!("corruption_{}", c.kind % 14));
     obs.class_if(crlf, "crlf");
+    obs.class_if(cr_only, "cr_only");
     if obs.sample.is_none() {
         obs.sample = Some(serde_json::json!({"corrupted_line": bad_line, "text": text}));
     }
